@@ -26,7 +26,7 @@ FCHANS_T = FCHANS_Q + [128, 255, 1000, 1024, 4096]
 TCHANS = [1, 2, 3, 16, 17]
 TCHANS_T = TCHANS + [5, 32, 100]
 ROUTES = ['explicit', 'shape', 'data', 'from_data']
-STYLES = ['plain', 'hz_s', 'mhz_ms', 'ghz', 'pixel', 'negdf']
+STYLES = ['plain', 'hz_s', 'mhz_ms', 'ghz', 'pixel', 'negdf', 'composite']
 
 
 def _mk_frame(c):
@@ -39,6 +39,11 @@ def _mk_frame(c):
     if style == 'plain' or style == 'pixel':
         a_df, a_dt, a_fch1 = df, dt, fch1
         exp = dict(df=F(df), dt=F(dt), fch1=F(fch1))
+    elif style == 'composite':
+        # dt written as the inverse of a rate in kHz: a COMPOSITE unit (1 / kHz) built on the fly
+        x_rate = (1.0 / dt) / 1e3
+        a_df, a_dt, a_fch1 = df * u.Hz, 1.0 / (x_rate * u.kHz), fch1 * u.Hz
+        exp = dict(df=F(df), dt=1 / (F(x_rate) * 1000), fch1=F(fch1))
     elif style == 'negdf':
         # the channel width handed over with the sign of a filterbank header's foff: the constructor takes its magnitude
         a_df, a_dt, a_fch1 = -df, dt, fch1
@@ -59,6 +64,15 @@ def _mk_frame(c):
         asc = np.bool_(asc)        # the flag as it comes out of a numpy comparison (e.g. foff > 0)
     route = c['route']
     data = None
+    if style == 'composite':
+        # process history: conversions through OTHER composite units of the same kind (1 / Hz, 1 / MHz, Hz / s ...) come and go
+        # first, so that anything remembered per unit OBJECT rather than per unit is as stale as it can be
+        for rep in range(12):
+            try:
+                stg.Frame(fchans=2, tchans=2, df=1.0 * u.Hz, dt=1.0 / ((1.0 + rep) * u.Hz), fch1=1e3 * u.Hz)
+                stg.Frame(fchans=2, tchans=2, df=1.0 * u.Hz, dt=1.0 / ((1e-6 * (1 + rep)) * u.MHz), fch1=1e3 * u.Hz)
+            except Exception:
+                pass
     # deterministic process history: a frame with the same (fch1, df, sizes) but the OPPOSITE orientation is built first, so that anything memoised at module/class level on too coarse a key is in
     # the same condition in every process
     try:
@@ -68,6 +82,17 @@ def _mk_frame(c):
         pass
     if route in ('data', 'from_data'):
         data = np.arange(m * n, dtype=float).reshape(m, n)
+    if route == 'explicit' and style == 'composite':
+        # the pair (conversion through 1/Hz, then the frame under test through 1/kHz) is repeated: which temporary unit object a
+        # later one replaces in memory is the allocator's business, so one attempt proves little; any attempt that converts
+        # wrongly is returned for the checks below to report
+        fr = None
+        for rep in range(25):
+            stg.Frame(fchans=2, tchans=2, df=1.0 * u.Hz, dt=1.0 / ((3.0 + rep) * u.Hz), fch1=1e3 * u.Hz)
+            fr = stg.Frame(fchans=n, tchans=m, df=a_df, dt=1.0 / (x_rate * u.kHz), fch1=a_fch1, ascending=asc, t_start=1000.5)
+            if not close_ulps(fr.dt, exp['dt'], float(exp['dt']), 2):
+                break
+        return fr, exp, data
     if route == 'explicit':
         if style == 'pixel':
             fr = stg.Frame(fchans=n * u.pixel, tchans=m * u.pixel, df=a_df, dt=a_dt, fch1=a_fch1,
@@ -215,7 +240,11 @@ def case_frame(c):
     viol = []
 
     def V(failure, detail, site='Frame.axes'):
-        viol.append({'site': site, 'failure': failure, 'detail': detail})
+        v = {'site': site, 'failure': failure, 'detail': detail}
+        if c.get('style') == 'composite':
+            v['no_reexec'] = True         # see case_backend: a history-dependent unit conversion is the library's, not the harness's
+            v['detail'] += ' [composite units; seen after the earlier conversions of this worker process]'
+        viol.append(v)
 
     n, m, asc = c['fchans'], c['tchans'], c['asc']
     try:
@@ -326,7 +355,14 @@ def case_backend(c):
     viol = []
 
     def V(failure, detail, site='Frame.from_backend_params'):
-        viol.append({'site': site, 'failure': failure, 'detail': detail})
+        v = {'site': site, 'failure': failure, 'detail': detail}
+        if c.get('q'):
+            # inputs and oracle of this case are pure functions of the case dict and nothing of the harness persists between
+            # cases; a wrong result that depends on what the PROCESS converted before (e.g. something remembered per unit object)
+            # is the library's, and need not recur when the case is run alone
+            v['no_reexec'] = True
+            v['detail'] += ' [unit-carrying arguments; seen after the earlier conversions of this worker process]'
+        viol.append(v)
     sr, P, N, I = c['sample_rate'], c['num_branches'], c['fftlength'], c['int_factor']
     df_x = F(sr) / P / N
     dt_x = F(I) / df_x
@@ -348,13 +384,28 @@ def case_backend(c):
         pass
     try:
         with contextlib.redirect_stdout(io.StringIO()):
-            if data is not None:
-                fr = stg.Frame.from_backend_params(obs_length=obs, sample_rate=sr, num_branches=P, fftlength=N,
-                                                   int_factor=I, fch1=c['fch1'], ascending=c['asc'], data=data)
-            else:
-                fr = stg.Frame.from_backend_params(fchans=n, obs_length=obs, sample_rate=sr, num_branches=P,
-                                                   fftlength=N, int_factor=I, fch1=c['fch1'], ascending=c['asc'])
-            pd = stg.params_from_backend(obs_length=obs, sample_rate=sr, num_branches=P, fftlength=N, int_factor=I)
+            # unit-carrying arguments go through composite units built on the fly; which temporary unit object a later one replaces
+            # in memory is the allocator's business, so that form is attempted several times and any wrong result is kept
+            for rep in range(12 if c.get('q') else 1):
+                if c.get('q'):
+                    # ... and between attempts the same helper is used with the quantities in OTHER units (kHz / min, GHz / us)
+                    from astropy import units as _u3
+                    f_obs, f_sr = float((F(k) + F(c['frac'])) * dt_x), c['sample_rate']
+                    for uo, so, ur, sr_ in ((_u3.min, 1 / 60.0, _u3.kHz, 1e-3), (_u3.us, 1e6, _u3.GHz, 1e-9)):
+                        try:
+                            stg.params_from_backend(obs_length=(f_obs * so) * uo, sample_rate=(f_sr * sr_) * ur, num_branches=P,
+                                                    fftlength=N, int_factor=I)
+                        except Exception:
+                            pass
+                if data is not None:
+                    fr = stg.Frame.from_backend_params(obs_length=obs, sample_rate=sr, num_branches=P, fftlength=N,
+                                                       int_factor=I, fch1=c['fch1'], ascending=c['asc'], data=data)
+                else:
+                    fr = stg.Frame.from_backend_params(fchans=n, obs_length=obs, sample_rate=sr, num_branches=P,
+                                                       fftlength=N, int_factor=I, fch1=c['fch1'], ascending=c['asc'])
+                pd = stg.params_from_backend(obs_length=obs, sample_rate=sr, num_branches=P, fftlength=N, int_factor=I)
+                if not (close_ulps(fr.df, df_x, float(df_x), 2) and close_ulps(fr.dt, dt_x, float(dt_x), 4) and fr.tchans == k):
+                    break
     except Exception as e:
         V('raised', '%s: %s' % (type(e).__name__, e))
         return {'viol': viol}
@@ -399,6 +450,8 @@ def run(ctx):
             for style in styles:
                 if style == 'pixel' and route != 'explicit':
                     continue
+                if style == 'composite' and ctx.tier != 'thorough' and (n + m) % 4:
+                    continue          # (each such case builds ~75 frames: a quarter of the sizes in the quick tier)
                 cases.append(dict(fchans=n, tchans=m, df=df, dt=dt, fch1=fch1, asc=asc, route=route, style=style))
     ctx.pmap(case_frame, cases)
     twins = []
